@@ -127,8 +127,10 @@ def apply(d, name, args, obj, variant):
         else:
             raise tlc.MachineryError("unknown action %s" % name)
         return "ok"
-    except (KeyError, AttributeError) as ex:
-        return type(ex).__name__
+    except KeyError:
+        return "KeyError"             # (a subclass of the class the statement names is that class)
+    except AttributeError:
+        return "AttributeError"
 
 
 def replay_graph(ctx, al, module, cfg, sd):
